@@ -133,6 +133,141 @@ theorem exactly_once {cfg : Cfg} {n : Nat} {s : State} (hr : Reachable cfg n s)
       rw [hf] at this; simp at this
     | _ => rfl
 
+/-! ### liveness: no lost wake-up, no dead-lock -/
+
+/-- **No lost wake-up** (holds with and without spurious wake-ups, for both variants of `dequeue`).
+* A worker that waits on `queue_cond` *unsignalled* has nothing to do: the queue is empty and `destroy` has not
+  taken the lock yet.  (The status may already be non-zero — the worker is then woken by the next `submit` or
+  by `destroy`; DESIGN.md §4 claimed `status = 0` here, which the code does not guarantee and does not need.)
+* When the main thread waits on `done_cond` *unsignalled*, nothing is dequeuable, and the ticket it waits for
+  is still queued or in the hands of a worker (which will broadcast when it stores it); with the repaired
+  `dequeue` moreover `status = 0`. -/
+theorem no_lost_wakeup {cfg : Cfg} {n : Nat} {s : State} (hr : Reachable cfg n s) :
+    (∀ i : Nat, s.workers[i]? = some (WPc.waitQ false) → s.queue = [] ∧ ¬ s.main.inJoin) ∧
+    (s.main = .deqWait false →
+      (∀ it r, s.done = it :: r → it.ticket ≠ s.nextDeq) ∧
+      (cfg.repaired = true → s.status = 0) ∧
+      (s.nextDeq ∈ tks s.queue ∨ s.nextDeq ∈ tkW s ∨ s.nextDeq ∈ tkF s)) := by
+  have hA := inv_reachable hr
+  have hB := invB_reachable hr
+  refine ⟨hB.waitQ, fun hm => ?_⟩
+  obtain ⟨hnd, hst⟩ := hB.deqWait hm
+  refine ⟨hnd, hst, ?_⟩
+  obtain ⟨hsd, hic⟩ := hA.mainDeq (by rw [hm]; trivial)
+  have hnd' := hA.nd
+  rw [hsd] at hnd'
+  simp only [length_nil, Nat.add_zero] at hnd'
+  have hlt : s.nextDeq < s.submitted.length := by have := hA.ic; omega
+  rcases no_item_lost hr s.nextDeq hlt with h1 | h1 | h1 | h1 | h1 | h1
+  · omega
+  · rw [hsd] at h1; simp [tks] at h1
+  · obtain ⟨it, r, hd, ht⟩ := done_head_of_mem hA h1
+    exact absurd ht (hnd it r hd)
+  · exact Or.inr (Or.inr h1)
+  · exact Or.inr (Or.inl h1)
+  · exact Or.inl h1
+
+/-- **No dead-lock** (repaired `dequeue`, at least one worker, strict relation — a waiter runs only after a
+broadcast).  In every reachable state in which the main thread is inside an API call, some thread can take a
+strict step: `submit`, `dequeue`, `get_status` and `destroy` never hang with nothing left to run. -/
+theorem no_deadlock {cfg : Cfg} {n : Nat} {s : State} (hrep : cfg.repaired = true) (hn : 0 < n)
+    (hr : Reachable cfg n s) (hcall : mainInCall s = true) :
+    ∃ c s', (∀ op, c ≠ .main (.call op)) ∧ stepStrict cfg s c = some s' := by
+  have hA := inv_reachable hr
+  have hB := invB_reachable hr
+  have hlen := workers_length_reachable hr
+  have mainStep : (stepMain cfg s (.cont false)).isSome = true →
+      ∃ c s', (∀ op, c ≠ .main (.call op)) ∧ stepStrict cfg s c = some s' := by
+    intro h
+    obtain ⟨s', h⟩ := Option.isSome_iff_exists.1 h
+    exact ⟨.main (.cont false), s', by intro op; simp, by simp [stepStrict, Choice.strict, step, h]⟩
+  have workerStep : ∀ (i : Nat) (pc : WPc), s.workers[i]? = some pc → pc ≠ WPc.waitQ false → pc ≠ WPc.exited →
+      ∃ c s', (∀ op, c ≠ .main (.call op)) ∧ stepStrict cfg s c = some s' := by
+    intro i pc hi h1 h2
+    obtain ⟨s', hs'⟩ := worker_can_step cfg s i pc hi h1 h2
+    exact ⟨.worker i false, s', by intro op; simp, hs'⟩
+  cases hm : s.main with
+  | idle => simp [mainInCall, hm] at hcall
+  | finished => simp [mainInCall, hm] at hcall
+  | submitLock d => exact mainStep (by simp [stepMain, hm])
+  | deqLock => exact mainStep (by simp [stepMain, hm])
+  | statusLock => exact mainStep (by simp [stepMain, hm])
+  | destroyLock => exact mainStep (by simp [stepMain, hm])
+  | deqWait sig =>
+    cases sig with
+    | true => exact mainStep (by simp [stepMain, hm])
+    | false =>
+      obtain ⟨_, hst, hwhere⟩ := (no_lost_wakeup hr).2 hm
+      have hst0 := hst hrep
+      rcases hwhere with hq | hw | hf
+      · -- the awaited ticket is still queued: worker 0 cannot be asleep
+        have h0 : 0 < s.workers.length := by omega
+        obtain ⟨pc, hpc⟩ : ∃ pc, s.workers[0]? = some pc := ⟨s.workers[0], getElem?_eq_getElem h0⟩
+        refine workerStep 0 pc hpc ?_ ?_
+        · intro hx; subst hx
+          have := (hB.waitQ 0 hpc).1
+          rw [this] at hq; simp [tks] at hq
+        · intro hx; subst hx
+          exact hB.exited 0 hpc hst0
+      · obtain ⟨pc, hpc, hin⟩ := mem_flatMap.1 hw
+        obtain ⟨i, hi⟩ := getElem?_of_mem hpc
+        refine workerStep i pc hi ?_ ?_ <;> (intro hx; subst hx; simp [WPc.tkW] at hin)
+      · obtain ⟨pc, hpc, hin⟩ := mem_flatMap.1 hf
+        obtain ⟨i, hi⟩ := getElem?_of_mem hpc
+        refine workerStep i pc hi ?_ ?_ <;> (intro hx; subst hx; simp [WPc.tkF] at hin)
+  | join i =>
+    have hlt := hB.joinLt i hm
+    obtain ⟨pc, hpc⟩ : ∃ pc, s.workers[i]? = some pc := ⟨s.workers[i], getElem?_eq_getElem hlt⟩
+    by_cases hex : pc = .exited
+    · subst hex
+      by_cases hl : i + 1 < s.workers.length
+      · exact mainStep (by simp [stepMain, hm, hpc, hl])
+      · exact mainStep (by simp [stepMain, hm, hpc, hl])
+    · refine workerStep i pc hpc ?_ hex
+      intro hx; subst hx
+      exact (hB.waitQ i hpc).2 (by rw [hm]; trivial)
+
+/-- the same as a statement about the flag both the model driver and the harness print after every step
+(`dl=`): it is never set in a reachable state of the repaired pool -/
+theorem no_deadlock_flag {cfg : Cfg} {n : Nat} {s : State} (hrep : cfg.repaired = true) (hn : 0 < n)
+    (hr : Reachable cfg n s) : isDeadlock s = false := by
+  cases hcall : mainInCall s with
+  | false => simp [isDeadlock, hcall]
+  | true =>
+    obtain ⟨c, s', hc, hs⟩ := no_deadlock hrep hn hr hcall
+    have hlen := workers_length_reachable hr
+    cases c with
+    | main mc =>
+      cases mc with
+      | call op => exact absurd rfl (hc op)
+      | cont spur =>
+        cases spur with
+        | true => simp [stepStrict, Choice.strict] at hs
+        | false =>
+          have : mainContEnabled s = true := by
+            simp only [stepStrict, Choice.strict, Bool.not_false, if_true, step] at hs
+            unfold stepMain at hs
+            unfold mainContEnabled
+            split at hs <;> simp_all
+          simp [isDeadlock, this]
+    | worker i spur =>
+      cases spur with
+      | true => simp [stepStrict, Choice.strict] at hs
+      | false =>
+        simp only [stepStrict, Choice.strict, Bool.not_false, if_true, step] at hs
+        have hen : workerEnabled s i = true := by
+          unfold stepWorker at hs
+          unfold workerEnabled
+          split at hs <;> simp_all
+        have hi : i < s.workers.length := by
+          unfold workerEnabled at hen
+          cases hx : s.workers[i]? with
+          | none => simp [hx] at hen
+          | some pc => exact (List.getElem?_eq_some_iff.1 hx).1
+        simp only [isDeadlock, Bool.and_eq_false_iff, all_eq_false, mem_range]
+        right
+        exact ⟨i, hi, by simp [hen]⟩
+
 /-! ### non-vacuity -/
 
 /-- a concrete execution (2 workers, items 7 and 9, worker 1 overtakes worker 0) that reaches a state where
